@@ -254,7 +254,8 @@ def judge(ctx, suite, scs, rerun=None):
         s = scs[i]
         ctx.fail_or_known(None, "namespace isolation violated on the implementation's observations "
                           "(a handler entry / ack / connect / disconnect not attributable to an operation in the "
-                          "same namespace, or a socket other than the one registered for the namespace): names %s ops %s"
+                          "same namespace, a socket other than the one registered for the namespace, or an event of a server emit / "
+                          "broadcast that reached a client whose CONNECT for that namespace had not been accepted yet): names %s ops %s"
                           % (s["names"], json.dumps(s["ops"])[:600]),
                           {"kind": "failing-input", "engine": "namespaces", "mode": "script",
                            "script": {k: s[k] for k in ("id", "names", "gated", "conns", "tr", "ops")}, "obs": s["obs"]})
